@@ -209,6 +209,37 @@ let check inp obs =
        (* not a canonical encoding of the type: how the implementation treats malformed input is
           the subject of C12/C33, no claim here *)
        ok ~nontrivial:false ~tags:"dec-malformed-noclaim" ())
+  | [("xhdr" | "xjust") as kind; vs] ->
+    (* the reference encoding (produced through dot/types.Header / the primitives' Commit, and
+       required here to BE the reference encoding) decoded into the generic types: the value must
+       come back; inside the guard of finding generic-header-digest-untagged the decoder crashes *)
+    let is_h = (kind = "xhdr") in
+    let t = if is_h then prim_header else prim_justification in
+    let v = to_val t (parse_tree vs) in
+    if not (has_type t v) then
+      { (ok ~nontrivial:false ~tags:"val-ill-typed" ()) with model_eq = false; detail = "generated value is not of the type" }
+    else begin
+      let enc = encode t v in
+      let guard = if is_h then has_digest_items v else just_has_digest_items v in
+      let res = if is_h then decode_generic_header enc else decode_generic_just enc in
+      let mdec = (match res with Ok w -> of_val t w | Panic -> "panic" | _ -> "err") in
+      let mhash = if is_h && not guard then [hex_of_bytes (blake2b_256 enc)] else [] in
+      let model = String.concat " " ([hex_of_bytes enc; mdec] @ mhash) in
+      match o with
+      | genc :: gdec :: rest ->
+        let p_in = (bytes_of_hex genc = enc) in
+        let p_dec = (gdec = of_val t v) in
+        let p_hash = (not is_h) || (match rest with [h] -> bytes_of_hex h = blake2b_256 enc | _ -> false) in
+        let prop = p_in && p_dec && p_hash in
+        { prop_ok = prop; model_eq = (model = obs); nontrivial = true;
+          finding = (if (not prop) && guard && model = obs then "generic-header-digest-untagged" else "-");
+          tags = kind ^ (if guard then "," ^ kind ^ "-with-digest-items" else "," ^ kind ^ "-no-digest-items");
+          detail = if prop && model = obs then "" else
+            (if not p_in then "the bytes handed to the decoder are not the reference encoding"
+             else if not p_dec then "the reference encoding does not decode to the value" else "Hash() of the decoded header <> blake2b_256(encoding)")
+            ^ " model=" ^ (if String.length model > 300 then String.sub model 0 300 ^ "..." else model) }
+      | _ -> bad ~tags:(kind ^ ",go-error") ("unexpected observation " ^ obs)
+    end
   | ["babepre"; vs] ->
     let t = ty_of "BabeDigest" in
     let v = to_val t (parse_tree vs) in
@@ -300,7 +331,11 @@ let check inp obs =
           if key = "x" then bytes_of_hex rest else
           let k = n_of_hex key in
           let body = String.sub rest 1 (String.length rest - 1) in
-          enc_fields [if rest.[0] = 'v' then (k, WVarint (n_of_hex body)) else (k, WBytes (bytes_of_hex body))]
+          enc_fields [(match rest.[0] with
+            | 'v' -> (k, WVarint (n_of_hex body))
+            | 'q' -> (k, WFixed64 (bytes_of_hex body))
+            | 'f' -> (k, WFixed32 (bytes_of_hex body))
+            | _ -> (k, WBytes (bytes_of_hex body)))]
         | None -> fail "C14: bad field %s" fld) (String.split_on_char ',' spec) in
     let show (q : block_request) = String.concat " " [ hex_of_n q.rq_data;
         (match q.rq_from with FromHash h -> "h:" ^ hex_of_bytes h | FromNumber k -> "n:" ^ hex_of_n k);
@@ -311,6 +346,43 @@ let check inp obs =
       tags = "breqraw," ^ (match res with Ok _ -> "breqraw-ok" | Err (S O) -> "breqraw-err-parse"
                            | Err (S (S O)) -> "breqraw-err-no-from" | Err _ -> "breqraw-err-number-length" | _ -> "breqraw-?");
       detail = if model = obs then "" else "BlockRequestMessage.Decode differs from the reference decoder; model=" ^ model }
+  | ["brespp"; vs; _seed] ->
+    (* the response rewritten as another implementation might write it: model and code must read
+       the same message from the same bytes; when every block keeps, per known field number, the
+       occurrences of the canonical encoding (C14_response_any_wire) that message is the response *)
+    let v = to_val block_data_ty (parse_tree vs) in
+    let ds = (match v with VL l -> List.map bd_of_val l | _ -> raise (Shape "list")) in
+    if not (List.for_all block_data_ok ds) then
+      { (ok ~nontrivial:false ~tags:"bresp-ill-typed" ()) with model_eq = false; detail = "generated block data is not well typed" }
+    else begin
+      let show l = of_val block_data_ty (VL (List.map val_of_bd l)) in
+      match o with
+      | [e] when String.length e >= 4 && String.sub e 0 4 = "err:" -> bad ~tags:"brespp,go-error" ("unexpected observation " ^ obs)
+      | [genc; gdec] ->
+        let bs = bytes_of_hex genc in
+        let mdec = (match decode_response bs with Ok l -> show l | _ -> "err") in
+        let model = genc ^ " " ^ mdec in
+        let bytes_of k fs = List.filter_map (function (j, WBytes b) when j = k -> Some b | _ -> None) fs in
+        let vars_of k fs = List.filter_map (function (j, WVarint x) when j = k -> Some x | _ -> None) fs in
+        let nn i = n_of_int i in
+        let same_known gs d =
+          let c = bd_fields d in
+          List.for_all (fun k -> bytes_of (nn k) gs = bytes_of (nn k) c) [1;2;3;4;5;6] && vars_of (nn 7) gs = vars_of (nn 7) c in
+        let claim = (match parse bs with
+          | Some fs ->
+            let blocks = bytes_of (nn 1) fs in
+            List.length blocks = List.length ds &&
+            List.for_all2 (fun m d -> match parse m with Some gs -> same_known gs d | None -> false) blocks ds
+          | None -> false) in
+        let p_rt = (not claim) || (gdec = show (List.map normalise ds)) in
+        { prop_ok = p_rt; model_eq = (model = obs); nontrivial = true; finding = "-";
+          tags = "brespp" ^ (if claim then ",brespp-same-message" else ",brespp-other-message")
+                 ^ (if bs = encode_response ds then ",brespp-identity" else "");
+          detail = if p_rt && model = obs then "" else
+            (if not p_rt then "a response in another accepted wire encoding does not decode to the response" else "BlockResponseMessage.Decode differs from the reference decoder")
+            ^ " model=" ^ (if String.length model > 300 then String.sub model 0 300 ^ "..." else model) }
+      | _ -> bad ~tags:"brespp,go-error" ("unexpected observation " ^ obs)
+    end
   | ["bresp"; vs] ->
     let v = to_val block_data_ty (parse_tree vs) in
     let ds = (match v with VL l -> List.map bd_of_val l | _ -> raise (Shape "list")) in
